@@ -72,23 +72,30 @@ fn inline_text(input: &str) -> bool {
     !(first == ' ' || last == ' ' || first == '[' || first == '.' || first == '*')
 }
 
-fn through_bundle(input: &str, func: fn(&str) -> Cow<'_, str>) -> (String, String) {
+fn through_bundle(input: &str, func: fn(&str) -> Cow<'_, str>) -> Vec<String> {
+    let na = || vec!["na".to_string(); 4];
     if !inline_text(input) {
-        return ("na".into(), "na".into());
+        return na();
     }
-    let src = format!("m = {}\nn = {}{{ \"|\" }}{}\n", input, input, input);
+    // m: one text element; n: two around a literal; s: text before, inside and after a select whose selector is a
+    // MISSING argument (resolves to an error value, default variant taken); r: text reached through a term reference,
+    // directly, and through a message reference
+    let src = format!(
+        "m = {i}\nn = {i}{{ \"|\" }}{i}\ns = {i}{{ $missing ->\n    [a] x\n   *[b] {i}\n}}{i}\n-t = {i}\nr = {{ -t }}{i}{{ m }}\n",
+        i = input
+    );
     let res = match FluentResource::try_new(src) {
         Ok(r) => r,
-        Err(_) => return ("na".into(), "na".into()),
+        Err(_) => return na(),
     };
     let mut bundle: FluentBundle<FluentResource> = FluentBundle::new(vec!["en-US".parse().unwrap()]);
     bundle.set_use_isolating(false);
     bundle.set_transform(Some(func));
     if bundle.add_resource(res).is_err() {
-        return ("na".into(), "na".into());
+        return na();
     }
     let mut out = vec![];
-    for id in ["m", "n"] {
+    for id in ["m", "n", "s", "r"] {
         let o = match bundle.get_message(id).and_then(|m| m.value()) {
             Some(p) => {
                 let mut errs = vec![];
@@ -99,7 +106,7 @@ fn through_bundle(input: &str, func: fn(&str) -> Cow<'_, str>) -> (String, Strin
                 let _ = bundle.write_pattern(&mut w, p, None, &mut errs2);
                 if w != v {
                     format!("WRITE-DIFFERS:{}", hex_enc(w.as_bytes()))
-                } else if errs.is_empty() {
+                } else if errs.is_empty() || (id == "s" && errs.len() == 1) {
                     hex_enc(v.as_bytes())
                 } else {
                     format!("err{}", errs.len())
@@ -109,7 +116,7 @@ fn through_bundle(input: &str, func: fn(&str) -> Cow<'_, str>) -> (String, Strin
         };
         out.push(o);
     }
-    (out[0].clone(), out[1].clone())
+    out
 }
 
 fn run(payload: &str) -> String {
@@ -133,8 +140,8 @@ fn run(payload: &str) -> String {
     } else {
         fluent_pseudo::transform(&input, fl[0], fl[1])
     };
-    let (m, n) = through_bundle(&input, func);
-    format!("ok:{};m:{};n:{}", hex_enc(direct.as_bytes()), m, n)
+    let o = through_bundle(&input, func);
+    format!("ok:{};m:{};n:{};s:{};r:{}", hex_enc(direct.as_bytes()), o[0], o[1], o[2], o[3])
 }
 
 fn main() {
